@@ -3,6 +3,7 @@ package engb
 import (
 	gocontext "context"
 	"fmt"
+	"io"
 	"os"
 	"sort"
 	"sync"
@@ -96,12 +97,24 @@ type world struct {
 	crashMu  sync.Mutex
 }
 
+// logToNowhere: orda formats its log lines (reads its contexts' tag maps, clones entries) but writes
+// them nowhere. Used for the race-detector runs of C12: with logging silenced below the level check,
+// the accesses a log statement makes never happen and the detector cannot see a handler that logs
+// through a context somebody else is still writing.
+var logToNowhere bool
+
 func init() {
 	lvl := logrus.PanicLevel
 	if os.Getenv("VERIF_ORDALOG") != "" {
 		lvl = logrus.InfoLevel // debugging aid only: real-time stamps, not part of any replayed state
 	}
 	simhook.LoggerFunc = func(l *logrus.Logger) {
+		if logToNowhere && lvl == logrus.PanicLevel {
+			l.SetLevel(logrus.InfoLevel)
+			l.SetReportCaller(true) // orda's formatter needs the caller
+			l.SetOutput(io.Discard)
+			return
+		}
 		l.SetLevel(lvl)
 		l.SetReportCaller(lvl != logrus.PanicLevel)
 	}
